@@ -161,11 +161,25 @@ def txt_case(cid: str, d: Dict[Any, Any]) -> dict:
         own = info.properties
         oprops = [conv_item(k, v) for k, v in own.items()]
         obytes = all(isinstance(k, bytes) and (v is None or isinstance(v, bytes)) for k, v in own.items())
+        # ... and every description has a dictionary of its own: the application edits the one it got from `back`; a third description
+        # built from the same TXT bytes (before) and a fourth (afterwards) still read what their bytes say
+        third = ServiceInfo('_http._tcp.local.', 'y._http._tcp.local.', 80, properties=bytes(text))
+        third.properties
+        edited = back.properties
+        try:
+            edited[b'zz-edited'] = b'1'
+            for k in list(edited)[:1]:
+                if k != b'zz-edited':
+                    del edited[k]
+        except TypeError:
+            pass              # (a read-only mapping would be fine too)
+        fourth = ServiceInfo('_http._tcp.local.', 'z._http._tcp.local.', 80, properties=bytes(text))
+        aprops = [[conv_item(k, v) for k, v in x.properties.items()] for x in (third, fourth)]
         return {'id': cid, 'kind': 'txt', 'items': items, 'out': 'ok', 'text': list(text), 'props': props, 'oprops': oprops,
-                'obytes': obytes}
+                'obytes': obytes, 'aprops3': aprops[0], 'aprops4': aprops[1]}
     except Exception as e:  # noqa: BLE001
         return {'id': cid, 'kind': 'txt', 'items': items, 'out': 'exc:' + type(e).__name__, 'text': [], 'props': [], 'oprops': [],
-                'obytes': True}
+                'obytes': True, 'aprops3': [], 'aprops4': []}
 
 
 def run(ctx: Ctx) -> None:
